@@ -273,6 +273,23 @@ def check_search(m, f, schema, res_wl, res_bound):
     res_bound.sites += 2
     res_bound.ok(dict(function=disp, check='one removal and one neighbourhood scan per iteration'), fn=disp)
     res_bound.ok(None)
+    # ---- the scan visits every neighbour: nothing leaves the scan loop early
+    res_wl.sites += 1
+    early = []
+    for n in f.nodes:
+        if n['i'] in s.scanbody and n['k'] in ('BreakStmt', 'ReturnStmt', 'GotoStmt'):
+            owner = None
+            for a in f.ancestors(n['i']):
+                if f.nodes[a]['k'] in ('ForStmt', 'WhileStmt', 'DoStmt', 'CXXForRangeStmt', 'SwitchStmt'):
+                    owner = a
+                    break
+            if n['k'] != 'BreakStmt' or owner == s.scan['i']:
+                early.append(n)
+    if early:
+        fail(res_wl, 'scan-all', early[0]['i'], 'the scan of the neighbours of the current vertex is left early (%s): neighbours stored '
+             'after that point are never relaxed / discovered' % early[0]['k'])
+    else:
+        res_wl.ok(None)
     # ---- insert-once
     if len(s.inserts) != 1:
         res_wl.sites += 1
